@@ -9,6 +9,7 @@ import (
 	"go/types"
 	"regexp"
 	"regexp/syntax"
+	"sort"
 	"strings"
 
 	"golang.org/x/tools/go/ssa"
@@ -686,4 +687,120 @@ func isConstructorCode(c *Ctx, fn *ssa.Function) bool {
 		root = root.Parent()
 	}
 	return ctorOnlyCache[root]
+}
+
+// ---- lock order ----------------------------------------------------------------------------------------------------
+
+// mayAcquire: the lock keys fn or its library callees (three levels, goroutine launches excluded) acquire.
+func mayAcquire(c *Ctx, fn *ssa.Function, depth int, seen map[*ssa.Function]bool, out map[string]token.Pos) {
+	if fn == nil || fn.Blocks == nil || seen[fn] || depth > 3 {
+		return
+	}
+	seen[fn] = true
+	for _, ci := range callInstrs(fn) {
+		if _, isGo := ci.(*ssa.Go); isGo {
+			continue
+		}
+		if key, op, ok := lockOp(ci); ok {
+			if _, isDefer := ci.(*ssa.Defer); !isDefer && (op == "Lock" || op == "RLock") && key != "?" {
+				if _, dup := out[key]; !dup {
+					out[key] = ci.Pos()
+				}
+			}
+			continue
+		}
+		for _, h := range c.Callees(ci) {
+			if h.Pkg != nil && isLibPkgPath(h.Pkg.Pkg.Path()) {
+				mayAcquire(c, h, depth+1, seen, out)
+			}
+		}
+	}
+}
+
+// checkLockOrder: wherever a library mutex K is acquired (directly or in a callee) while another library mutex L is
+// certainly held, L is ordered before K; the order must be acyclic.
+func checkLockOrder(c *Ctx, r *Report, rule string) {
+	all := map[*ssa.Function]bool{}
+	for _, fn := range c.LibFns {
+		all[fn] = true
+	}
+	ml := NewMustLocks(c, all, func(ssa.CallInstruction, *ssa.Function) bool { return false })
+	type edge struct{ from, to string }
+	where := map[edge]string{}
+	locks := map[string]bool{}
+	for _, fn := range c.LibFns {
+		for _, ci := range callInstrs(fn) {
+			if _, isGo := ci.(*ssa.Go); isGo {
+				continue
+			}
+			if _, isDefer := ci.(*ssa.Defer); isDefer {
+				continue
+			}
+			acq := map[string]token.Pos{}
+			if key, op, ok := lockOp(ci); ok {
+				if (op == "Lock" || op == "RLock") && key != "?" {
+					acq[key] = ci.Pos()
+					locks[key] = true
+				}
+			} else {
+				for _, h := range c.Callees(ci) {
+					if h.Pkg != nil && isLibPkgPath(h.Pkg.Pkg.Path()) {
+						mayAcquire(c, h, 1, map[*ssa.Function]bool{}, acq)
+					}
+				}
+			}
+			if len(acq) == 0 {
+				continue
+			}
+			held := ml.HeldAt(ci)
+			for hk := range held {
+				l := strings.TrimSuffix(strings.TrimSuffix(hk, "/W"), "/R")
+				for k, p := range acq {
+					if k == l {
+						continue // same-key nesting is the business of no-reentrant-lock (needs the receiver's identity)
+					}
+					e := edge{l, k}
+					if _, dup := where[e]; !dup {
+						where[e] = fmt.Sprintf("%s holds %s at %s and %s is taken at %s", shortFn(fn), l, c.Pos(ci.Pos()), k, c.Pos(p))
+					}
+				}
+			}
+		}
+	}
+	// cycles (the graph has a handful of nodes)
+	adj := map[string][]string{}
+	for e := range where {
+		adj[e.from] = append(adj[e.from], e.to)
+	}
+	bad := 0
+	var reaches func(from, to string, seen map[string]bool) bool
+	reaches = func(from, to string, seen map[string]bool) bool {
+		if from == to {
+			return true
+		}
+		if seen[from] {
+			return false
+		}
+		seen[from] = true
+		for _, n := range adj[from] {
+			if reaches(n, to, seen) {
+				return true
+			}
+		}
+		return false
+	}
+	var es []edge
+	for e := range where {
+		es = append(es, e)
+	}
+	sort.Slice(es, func(i, j int) bool { return es[i].from+es[i].to < es[j].from+es[j].to })
+	for _, e := range es {
+		if reaches(e.to, e.from, map[string]bool{}) {
+			bad++
+			r.Bad(rule, fmt.Sprintf("order %s before %s", e.from, e.to), "-", fmt.Sprintf("%s, but elsewhere the two are taken in the opposite order (a path of acquisitions leads from %s back to %s): two goroutines -- the reader and the caller, or two callers -- that meet in the middle wait for each other for ever, and Close behind them", where[e], e.to, e.from))
+		}
+	}
+	if bad == 0 {
+		r.OK(rule, "acquisition order of the library's mutexes", "-", fmt.Sprintf("%d mutex field(s), %d nested acquisition(s) found; the order is acyclic", len(locks), len(es)))
+	}
 }
